@@ -90,7 +90,8 @@ class Batch(object):
                                                           if k in own or k in p.get('base', ())}
         c = {'op': r['op'], 'source': m.get('source'), 'pos': r.get('pos'), 'module': r.get('module'),
              'filename': r.get('filename'), 'text': self.texts[r['text']] if 'text' in r else None,
-             'files': files, 'root': p.get('root'), 'roots': p['roots'] if files is None else None}
+             'files': files, 'root': p.get('root'), 'roots': p['roots'] if files is None else None,
+             'what': (m.get('cand') or {}).get('what'), 'force_domain': bool(m.get('force_domain'))}
         if files is not None and r.get('filename'):
             c['filename_rel'] = os.path.relpath(r['filename'], p['root'])
         return c
@@ -966,7 +967,8 @@ def compare_batch(part, b, passes, runs, spans_of):
                 if bad:
                     case = b.case_of(i)
                     case.update({'check': 'source-order', 'answer': a, 'offending': bad[0]})
-                    part.violation('location-alternatives-not-source-order',
+                    part.violation('location-%s-alternatives-not-source-order' % (
+                                       'name' if what in ('name', 'import-of-multi') else 'attribute'),
                                    '%s: alternatives listed as %s - not in source order' % (
                                        _describe(b, i), [e.get('loc') for e in bad[0]]), case)
                     break
@@ -1188,7 +1190,8 @@ def replay(run, path):
             else:
                 b.projects['p'] = {'roots': c['roots'], 'root': None, 'files': None}
             meta = {'source': 'replay:' + str(c.get('source')), 'own_files': None, 'multi_exports': 1,
-                    'cand': {'name': '?', 'nalt': 2, 'what': 'replay'}}
+                    'force_domain': c.get('force_domain'),
+                    'cand': {'name': '?', 'nalt': 2, 'what': c.get('what') or 'replay'}}
             b.add(c['op'], 'p', c.get('text'), c.get('pos'), filename, c.get('module'), **meta)
             data1 = b.data()
             pa = child.evaluate(data1)
